@@ -49,6 +49,28 @@ func RunC15(r *sim.Run) {
 	w.Advance(100 * time.Millisecond)
 	w.Boundary()
 
+	// ---- earlier versions of alpha: the endpoints to be removed have a past ----
+	for k := t.Draw(3); k > 0; k-- {
+		ep := []string{e0, e1}[t.Draw(2)]
+		a1 := a.DeepCopy()
+		for i := range a1.Spec.Servers {
+			if a1.Spec.Servers[i].Endpoint == ep {
+				a1.Spec.Servers[i].Disabled = boolPtr(true)
+			}
+		}
+		for _, o := range []*proxyv1alpha1.UpstreamCluster{a1, a} {
+			if err := w.Apply(o.DeepCopy()); err != nil {
+				r.Inconclusive("apply: " + err.Error())
+				return
+			}
+			w.Boundary()
+			w.Advance([]time.Duration{100 * time.Millisecond, 2 * time.Second, 6 * time.Second}[t.Draw(3)])
+			w.Boundary()
+		}
+		r.Probe("endpoint_disabled_and_enabled_before_removal")
+		r.Logf("history: %s disabled, then enabled again", ep)
+	}
+
 	// ---- requests in every phase of their life ---------------------------
 	var reqs []*c15Req
 	nReq := t.Range(3, 9)
